@@ -4,7 +4,7 @@ From Coq Require Import List ZArith Bool Lia Arith.
 From DD Require Import Model.Circuit Model.LexerD4 Model.LoadC2d Model.LoadD4 Spec.D4Sem Spec.D4Conform
   Proofs.PassLemmas Proofs.LoadD4Graph Proofs.LoadD4Ops Proofs.LoadD4Fold Proofs.LoadD4Flat Proofs.LoadD4Iso
   Proofs.LoadD4Pass2 Proofs.LoadD4Pass2S Proofs.LoadD4Struct Proofs.LoadD4Pass3 Proofs.LoadD4Free
-  Proofs.LoadD4Parse Proofs.LoadD4Sem Proofs.LoadD4Conf Proofs.LoadD4Det.
+  Proofs.LoadD4Parse Proofs.LoadD4Sem Proofs.LoadD4Conf Proofs.LoadD4Det Proofs.LoadD4Vars Proofs.LoadD4Dec.
 Import ListNotations.
 Local Open Scope nat_scope.
 
@@ -36,7 +36,9 @@ Proof. intros [f Hf]. exists f. exact (gval_GDef g s f x b Hf). Qed.
 
 Section Pipeline.
 Variables (rc : bool) (ord : list nat -> list nat).
-Hypothesis Hord : forall l f, In f (ord l) -> In f l.
+Hypothesis Hperm : forall l f, In f (ord l) <-> In f l.
+Hypothesis Hndp : forall l, NoDup l -> NoDup (ord l).
+Let Hord : forall l f, In f (ord l) -> In f l := fun l f => proj1 (Hperm l f).
 Variables (toks : list d4token) (n0 : nat) (C : circuit) (n' : nat).
 Hypothesis Hconf : d4_conform toks n0 = true.
 Hypothesis Hload : load_d4_gen rc ord toks n0 = Some (C, n').
@@ -52,6 +54,7 @@ Record run_facts (b : bstate) (root1 : nat) (s1 : lstate) (g2 : sgraph) (s3 : ls
   rf_free : free_result (bs_ls b) root1 s1;
   rf_prov1 : lprov (bs_ls b) s1 [root1];
   rf_alive0 : sg_alive (ls_g (bs_ls b)) 0 = true;
+  rf_feats : free_feats (bs_occ b) (seq 1 NN) root1 s1;
   rf_ok1 : tables_ok P true s1;
   rf_pass2 : pass2 (ls_g s1) root1 = Some g2;
   rf_step2 : step_ok (ls_g s1) g2;
@@ -82,7 +85,7 @@ Proof.
   assert (Hok0 : tables_ok P true (bs_ls b)).
   { split; [exact (rp_core _ _ _ _ _ HR)|]. intros f o Hfo. rewrite (rp_tri _ _ _ _ _ HR) in Hfo. discriminate. }
   rewrite Htot in Efree.
-  destruct (add_free_spec rc _ _ _ _ _ Hok0 H0 (seq_le NN) Efree) as [Hok1 [Hfree [Hprov1 _]]].
+  destruct (add_free_spec rc _ _ _ _ _ Hok0 H0 (seq_le NN) Efree) as [Hok1 [Hfree [Hprov1 [_ Hff]]]].
   pose proof (pass2_struct _ _ _ (co_inv _ _ _ (proj1 Hok1)) (co_src _ _ _ (proj1 Hok1) eq_refl) E2) as Hst2.
   pose proof (tables_ok_shrink _ _ s1 g2 Hok1 (so_inv _ _ Hst2) (fun _ => so_src _ _ Hst2) (so_sh _ _ Hst2)) as Hok2.
   assert (Hr2 : sg_alive g2 root1 = true).
@@ -186,5 +189,29 @@ Qed.
 
 Lemma wf_det_cert : det_cert C = true.
 Proof. exact (iso_det_cert _ _ _ _ HI wf_det_ok). Qed.
+
+(* decomposability *)
+Lemma wf_vars_inv : exists m, vars_inv m s3.
+Proof.
+  pose proof (rf_rep _ _ _ _ _ _ RF) as HR.
+  pose proof (all_def_rep toks n0 n0 b Hconf HR) as A0.
+  pose proof (dec_ok_rep toks n0 n0 b Hconf HR) as D0.
+  assert (Hlits : forall y l, sg_label (ls_g (bs_ls b)) y = Some (GLit l) -> In (Z.abs_nat l) (bs_occ b)).
+  { intros y l Hy. exact (rp_lits _ _ _ _ _ HR l y (co_inj _ _ _ (rp_core _ _ _ _ _ HR) y l Hy)). }
+  pose proof (free_all_def _ _ _ _ _ (rf_free _ _ _ _ _ _ RF) (rf_feats _ _ _ _ _ _ RF) (rf_ok1 _ _ _ _ _ _ RF)
+                (rf_prov1 _ _ _ _ _ _ RF) A0 (rf_alive0 _ _ _ _ _ _ RF)) as A1.
+  pose proof (free_dec_ok _ _ _ _ _ (rf_free _ _ _ _ _ _ RF) (rf_feats _ _ _ _ _ _ RF) (rf_ok1 _ _ _ _ _ _ RF)
+                (rf_prov1 _ _ _ _ _ _ RF) A0 D0 (rf_alive0 _ _ _ _ _ _ RF) (seq_NoDup _ 1) Hlits) as D1.
+  pose proof (shrink_all_def _ _ (rf_step2 _ _ _ _ _ _ RF) A1) as A2.
+  pose proof (dec_ok_shrink _ _ (rf_step2 _ _ _ _ _ _ RF) A1 D1) as D2.
+  destruct (pass3_invariant_m rc ord Hord (litP_nz NN) (litP_sym NN) (fun m s => vars_inv m s)
+              _ _ _ (rf_ok2 _ _ _ _ _ _ RF) (rf_pass3 _ _ _ _ _ _ RF)) as [m [_ Hm]].
+  - intros m Em. split; [exact A2|]. split; [exact D2|]. exact (get_literal_diffs_exact _ _ _ Em).
+  - intros m sa sb nx _ Hoka _ Hia Hst. exact (vars_inv_step ord Hperm Hndp m sa sb nx Hoka Hst Hia).
+  - now exists m.
+Qed.
+
+Lemma wf_decomposable : decomposable C = true.
+Proof. destruct wf_vars_inv as [m [_ [Hd _]]]. exact (iso_decomposable _ _ _ _ HI Hd). Qed.
 End Conjuncts.
 End Pipeline.
